@@ -200,5 +200,17 @@ PROPS["C19"] = dict(
     assumptions=["loopback networking is available in the sandbox (the pinned suite uses it as well)"],
 )
 
+PROPS["C20"] = dict(
+    pkg="c20", level="exploration",
+    rule="generated (time, counter) observation histories for both meters driven through a build-tag-guarded hook with an injected clock; oracle: window model written from the statement (10 s / 30 s / 300 s cascade, "
+         "signed increase / window length, average since the first non-zero observation) plus model-independent invariants; public-API check that reads before Start / after Close are refused",
+    quick=dict(timeout=600), thorough=dict(shards=16, timeout=3000),
+    technique="model-based property testing (rapid) over observation histories with an injected clock (hook kxps/export_verif.go), invariant checks at every step",
+    level_text="Random exploration with shrinking over spacing (sub-window, exact-window, multi-window gaps) and counter behaviour (stall, jump, backwards, reset, wrap-around, 2^63 jumps).",
+    level_note="Needs the verif hook (the public API samples on a 10 s wall-clock timer). An increase >= 2^63 between two samples is indistinguishable from a wrap and is modelled as backwards (rate 0); "
+               "a counter value of 0 is 'no observation' (as the code treats it). Float comparison tolerance 1e-9 relative.",
+    assumptions=["hook kxps/export_verif.go calls the same doSample/sampleAverage the timer goroutine and Average() call"],
+)
+
 NOT_APPLICABLE = {}
-HOOK_COMMITS = []
+HOOK_COMMITS = ["ba4d95f68dd5a0290f21f6bb6c969f905e9412da"]
